@@ -31,6 +31,12 @@ CHECKS = {
                 ref='DESIGN 5/C35', note=SCHED_NOTE),
 }
 
+CHECKS['C17'] = dict(level='exploration', technique='bounded-exhaustive enumeration of the real PRF against an independent SHAKE-128 reference',
+    text='All combinations of 5 keys, all bounds 1..130(300) plus 2^j-1, 2^j, 2^j+1 for j<=130(199), 5 inputs and counts '
+    '{None,0,1,2,5} (and array shapes when numpy is present): determinism, range, exact count, prefix consistency, and '
+    'equality with an independently written reference.', ref='DESIGN 5/C17',
+    note='trusted: hashlib.shake_128; finite declared domain (bounds up to 2^199+1)')
+
 PENDING = {}
 
 
